@@ -92,6 +92,11 @@ static void h_op(void)
       status = esl_buffer_OpenFile(g_tmp, &bf);
       esl_verif_buffer_forcemode = 0;
     }
+    else if (!strcmp(mode, "auto") || !strcmp(mode, "open")) {
+      /* the natural paths: esl_buffer_OpenFile() / esl_buffer_Open() choose the mode from the file size (no forcing) */
+      if (!write_tmp()) { h_out("bad-op"); return; }
+      status = !strcmp(mode, "auto") ? esl_buffer_OpenFile(g_tmp, &bf) : esl_buffer_Open(g_tmp, NULL, &bf);
+    }
     else { h_out("bad-op"); return; }
     if (status != eslOK && bf) { esl_buffer_Close(bf); bf = NULL; }
     answer(status, NULL, 0, 0);
